@@ -2,6 +2,7 @@
 from checks import symgen, refqr, refmicro, refrmqr
 
 ID = 'C02'
+PROP_MODULES = ['QRV.Props.C02', 'QRV.Props.C02Symbol']
 RULE = ('every (version, level) pair of the three symbologies with every explicit mask (rotating in the quick tier) and automatic masking x the structured segment lists of C01. '
         'The implementation\'s bitmap is compared module for module with an independently written reference encoder (checks/refqr.py, refmicro.py, refrmqr.py: geometry, '
         'tables in compact form, BCH, RS by polynomial division, placement as a declarative list) in either admitted form (Micro QR M1/M3 final half codeword), and '
@@ -14,13 +15,16 @@ TRUSTED = [
 ]
 ASSUMPTIONS = ['rMQR rows of the capacity table are modelled, not verified (necessary conditions only)',
                'module (0, h-2) of the five R9xN rMQR symbols: my recollection of the standard is unsure (corner finder vs separator); both forms admitted']
-PARTIAL = 'table half proved in Lean for every version; algorithm half (stream, interleave, placement, masking of a concrete message) by differential comparison with the reference encoder'
+PARTIAL = ('QR: conformance of the whole emitted symbol is a theorem (C02Symbol.qr_symbol: module by module equal to the declarative symbol of Spec/Symbol.lean, which is itself compared with the implementation on every run); '
+           'Micro QR / rMQR: table half proved for every version; algorithm half by differential comparison with the reference encoder (rMQR with the recorded findings D15, D18)')
 MANIFEST = {
-    'technique': 'Lean 4 kernel evaluation of all generated tables against declarative specs (patterns, masks, capacity, BCH, RS generators) + module-for-module comparison with an independent reference encoder/reader',
+    'technique': 'Lean 4: kernel evaluation of all generated tables against declarative specs (patterns, masks, capacity, BCH, RS generators); for QR the theorem that the emitted bitmap IS the standard\'s symbol of the description (declarative Spec.Symbol: stream, blocks, RS codewords, interleaving, placement order, mask, format/version information, function patterns), with uniqueness; module-for-module comparison with an independent reference encoder/reader for all three symbologies',
     'text': ('QRV/Props/C02.lean proves the table half of conformance for every version of every symbology: all function-pattern bitmaps, mask canvases, capacity rows, BCH words and RS coders '
              'equal declarative specifications written from the standards (kernel evaluation of every cell; a wrong alignment centre, BCH word, capacity row or RS tap breaks a named lemma). '
-             'The algorithm half is decided per message by comparing the implementation\'s bitmap with an independently written reference encoder and by reading it back with an independent '
-             'reference reader, over all configurations and structured payloads; this part is exploration-level.'),
+             'QRV/Props/C02Symbol.lean proves the algorithm half for QR: for every valid description and mask (explicit or automatic) the encoder model emits a regular bitmap whose every module equals the declarative symbol Spec.Symbol.QR.IsSymbol '
+             '(data stream, block shapes of Table 9, Reed-Solomon codeword condition, interleaving, the standard placement order - the model\'s walk is proved to visit exactly dataCoords v -, mask condition, BCH format/version words at their positions, dark module, function patterns), and that this specification determines the symbol uniquely. '
+             'For all three symbologies the algorithm half is also decided per message by comparing the implementation\'s bitmap with an independently written reference encoder and by reading it back with an independent '
+             'reference reader, over all configurations and structured payloads, and (QR) by comparing it with the evaluated Spec.Symbol.'),
     'note': ('Trusted: Lean kernel; my transcription of the standards in Spec.* and in the python references (independent of /repo; rMQR EC split/count widths are not independent). '
              'Known finding recorded: rMQR column-1 data modules (D18).'),
 }
